@@ -145,7 +145,7 @@ class Ctx(object):
 # ----------------------------------------------------------------------
 # generic lane-fact check
 # ----------------------------------------------------------------------
-def lane_facts(ctx, source, family, groups, cfg_filter=None, extra_defs=(), args_extra=(), module='TraceFacts', env_extra=None, cfgs=None, run_env=None):
+def lane_facts(ctx, source, family, groups, cfg_filter=None, extra_defs=(), args_extra=(), module='TraceFacts', env_extra=None, cfgs=None, run_env=None, exec_prefix=None):
     """Build <source> for every configuration x group, run family, TLC-judge the
     distinct facts, classify rejections.  Returns number of facts judged."""
     if cfgs is None:
@@ -164,11 +164,15 @@ def lane_facts(ctx, source, family, groups, cfg_filter=None, extra_defs=(), args
         facts.RUN_ENV = dict(os.environ, **run_env)
     else:
         facts.RUN_ENV = None
+    facts.RUN_PREFIX = list(exec_prefix) if exec_prefix else None
     rjobs = []
     for tag, exe in exes.items():
         pre = os.path.join(ctx.scratch, '%s_%s' % (family, tag.replace('/', '_')))
         rjobs.append((tag, exe, [family, ctx.tier, str(ctx.seed)] + list(args_extra), pre))
-    results = facts.run_drivers(rjobs)
+    try:
+        results = facts.run_drivers(rjobs)
+    finally:
+        facts.RUN_PREFIX = None
     total_judged = 0
     for g in groups:
         m = facts.Merged()
